@@ -69,6 +69,7 @@ func (t *Tokenizer) Parse(buf []byte, handler oj.TokenHandler) (err error) {
 		t.tmp = t.tmp[:0]
 		t.starts = t.starts[:0]
 	}
+	t.exkey = false
 	t.noff = -1
 	t.line = 1
 	t.mode = valueMap
@@ -101,6 +102,7 @@ func (t *Tokenizer) Load(r io.Reader, handler oj.TokenHandler) (err error) {
 		t.tmp = t.tmp[:0]
 		t.starts = t.starts[:0]
 	}
+	t.exkey = false
 	t.noff = -1
 	t.line = 1
 	t.mi = 0
